@@ -39,6 +39,8 @@ import (
 	gatewayapp "github.com/kubewharf/kubegateway/cmd/kube-gateway/app"
 	proxyv1alpha1 "github.com/kubewharf/kubegateway/pkg/apis/proxy/v1alpha1"
 	gatewayinformers "github.com/kubewharf/kubegateway/pkg/client/informers"
+	"k8s.io/apimachinery/pkg/watch"
+	k8stesting "k8s.io/client-go/testing"
 	gatewayfake "github.com/kubewharf/kubegateway/pkg/client/kubernetes/fake"
 	"github.com/kubewharf/kubegateway/pkg/clusters"
 	"github.com/kubewharf/kubegateway/pkg/clusters/features"
@@ -243,6 +245,7 @@ type world struct {
 	stop    chan struct{}
 	pending map[string]chan struct{}
 	infos   map[*clusters.ClusterInfo]bool
+	pickers map[string]clusters.EndpointPicker
 	epSeen  map[*clusters.EndpointInfo]string // every endpoint object ever seen in a cluster (url), for step "poke"
 }
 
@@ -476,11 +479,25 @@ func runScenario(t *testing.T, sc scenario) []ev {
 	}
 	// the real controller over a fake clientset
 	w.client = gatewayfake.NewSimpleClientset()
+	// the fake tracker does not replay: an object created between the informer's List and its Watch would be lost, so the
+	// scenario starts only once the watch is registered
+	watching := make(chan struct{})
+	var watchOnce sync.Once
+	w.client.PrependWatchReactor("upstreamclusters", func(action k8stesting.Action) (bool, watch.Interface, error) {
+		wi, err := w.client.Tracker().Watch(action.GetResource(), action.GetNamespace())
+		watchOnce.Do(func() { close(watching) })
+		return true, wi, err
+	})
 	factory := gatewayinformers.NewSharedInformerFactory(w.client, 10*time.Minute)
 	inf := factory.Proxy().V1alpha1().UpstreamClusters()
 	w.ctrl = controllers.NewUpstreamClusterController(inf, &proxyoptions.RateLimiterOptions{RateLimiter: "local"})
 	go factory.Start(w.stop)
 	go w.ctrl.Run(w.stop)
+	select {
+	case <-watching:
+	case <-time.After(10 * time.Second):
+		w.infra("informer did not start watching")
+	}
 	// the real handler chain with scripted authenticator / authorizer
 	authn := authenticator.RequestFunc(func(req *http.Request) (*authenticator.Response, bool, error) {
 		tok := strings.TrimPrefix(req.Header.Get("Authorization"), "Bearer ")
@@ -654,6 +671,32 @@ func runScenario(t *testing.T, sc scenario) []ev {
 					w.add(ev{"k": "hung", "id": s.ID})
 				}
 			}
+		case "match": // first half of a request as the dispatcher performs it (ClusterInfo.MatchAttributes)
+			ci, ok := w.ctrl.Get(s.Name)
+			if !ok {
+				w.infra("match: no cluster %s", s.Name)
+			}
+			attrs := authorizer.AttributesRecord{User: &user.DefaultInfo{Name: "u"}, Verb: "get", APIGroup: "", Resource: s.Resource, ResourceRequest: true}
+			picker, err := ci.MatchAttributes(attrs)
+			if err != nil {
+				w.infra("match: %v", err)
+			}
+			if w.pickers == nil {
+				w.pickers = map[string]clusters.EndpointPicker{}
+			}
+			w.pickers[s.ID] = picker
+			w.add(ev{"k": "matched", "id": s.ID, "resource": s.Resource})
+		case "pop": // second half: pick the endpoint
+			picker, ok := w.pickers[s.ID]
+			if !ok {
+				w.infra("pop: no picker %s", s.ID)
+			}
+			delete(w.pickers, s.ID)
+			stub := -1
+			if e, err := picker.Pop(); err == nil {
+				stub = w.stubOfEndpoint(e.Endpoint)
+			}
+			w.add(ev{"k": "popped", "id": s.ID, "resource": s.Resource, "stub": stub})
 		case "pops":
 			ci, ok := w.ctrl.Get(s.Name)
 			if !ok {
